@@ -569,7 +569,9 @@ BaseSteps(ww) ==
    \cup (IF HeightMatters(ww) /\ ww.b.blocks < cf.blocks
          THEN {[S0("block") EXCEPT !.nb = p[1], !.incl = p[2]] : p \in {<<MinConf, TRUE>>, <<Window, FALSE>>, <<CsvBlocks, TRUE>>}} ELSE {})
    \cup (IF ww.b.ticks < cf.ticks THEN {S0("tick")} ELSE {})
-   \cup (IF ww.b.retx < cf.retx THEN {[S0("retx") EXCEPT !.n = n] : n \in {m \in {"A", "B"} : ww.nd[m].up /\ ww.nd[m].snd /\ ww.nd[m].lastotb # None}} ELSE {})
+   \* a retransmission tick of a node that announced an opening transaction in this process - also where the specification says the
+   \* retransmitter is gone (there the tick changes nothing; code that forgets to stop the retransmitter sends another copy: D5 / C22)
+   \cup (IF ww.b.retx < cf.retx THEN {[S0("retx") EXCEPT !.n = n] : n \in {m \in {"A", "B"} : ww.nd[m].up /\ ww.nd[m].lastotb # None}} ELSE {})
    \cup (IF ww.b.restarts < cf.restarts THEN {[S0("restart") EXCEPT !.n = n] : n \in {"A", "B"}} ELSE {})
    \cup {[S0("restart") EXCEPT !.n = n] : n \in {m \in {"A", "B"} : ~ww.nd[m].up}}
    \cup (IF \E i \in 1..Len(ww.cinv) : ww.cinv[i].st = "inflight" THEN {[S0("htlc") EXCEPT !.k = k] : k \in {"settle", "fail"}} ELSE {}))
